@@ -9,6 +9,9 @@ CLAIMED = {
  'C12': ('E1+E2', 'stateless DFS over thread interleavings (preemption-bounded, HB-state caching) of the real writer; exhaustive operation sequences of the real queue vs slice model',
          'Every interleaving of 1-2 producers, the writer goroutine / flush timer and a closer on the real writer up to the stated preemption bound, and every queue operation sequence up to the stated depth, are executed on the real code and compared with an order/loss/duplication oracle.',
          'Scheduling points are sync/atomic/channel/timer operations plus the transport double; data races between points are outside the model.', '2/C12'),
+ 'C39': ('E2', 'exhaustive enumeration of all pairs of publication lists (bounded length/offset alphabet) on the real MergePublications against a reference',
+         'Every pair of (recovered, buffered) publication lists up to length 3 over a 4-5 offset alphabet with filtered placeholders and duplicates is evaluated on the real function and compared with an independent reference merge and gap verdict.',
+         'Bounded list length and offset range; publications differ only in offset / placeholder flag.', '2/C39'),
 }
 NA = {
  'C18': 'needs a Redis server (or faithful emulator) to execute the Redis broker; none exists in the sealed sandbox, so Redis-vs-Memory agreement cannot be explored',
